@@ -151,6 +151,22 @@ def r16_1(cx):
                 c.op.rsplit('::', 1)[-1] in ('rev', 'skip', 'step_by', 'take', 'filter', 'skip_while', 'take_while', 'chain') for c in it.calls())
             if x is not None and x.strip().kind == 'param' and x.strip().info['i'] == 2 and over_items:
                 ok_alts = idx_ok = guard_ok = True
+    # ... or items.iter().enumerate().find(|(_, item)| !is_erased(item)).map_or(usize::MAX, |(idx, _)| idx)
+    if is_call(whole, 'map_or') and len(whole.args) == 3 and whole.args[1].strip().kind == 'const' and whole.args[1].strip().info.get('int') == 2**64 - 1:
+        fnd = whole.args[0].strip()
+        pick = closure_of(m.prog, whole.args[2])
+        if fnd.kind == 'call' and (fnd.op.endswith('Iterator>::find') or fnd.op.endswith('Iterator::find')) and len(fnd.args) == 2 and pick is not None:
+            pred = closure_of(m.prog, fnd.args[1])
+            it = fnd.args[0]
+            over_items = any(m.is_items(n) for n in it.walk()) and it.has_call('iter') and it.has_call('enumerate') and not any(
+                c.op.rsplit('::', 1)[-1] in ('rev', 'skip', 'step_by', 'take', 'filter', 'skip_while', 'take_while', 'chain') for c in it.calls())
+            if pred is not None and over_items:
+                ret = pred.local_expr(0, []).strip()
+                x = m.erased_of(ret.a) if ret.kind == 'unop' and ret.op == 'Not' else None
+                pr = pick.local_expr(0, []).strip()
+                picks_index = pr.kind == 'proj' and pr.op == 'field' and pr.info.get('i') == 0 and pr.params() == {2}
+                if x is not None and x.params() == {2} and any(n.kind == 'proj' and n.op == 'field' and n.info.get('i') == 1 for n in x.walk()) and picks_index:
+                    ok_alts = idx_ok = guard_ok = True
     for pos, st in f.statements():
         if st['k'] == 'assign' and st['rv']['k'] == 'use':
             v = f.rvalue_expr(st['rv']).strip()
@@ -159,7 +175,10 @@ def r16_1(cx):
                 for e, val, edge in f.facts_at(pos.bb):
                     x = m.erased_of(e)
                     if x is not None and val is False and x.has_call('Iterator>::next'):
-                        guard_ok = True
+                        # ... and the scan stops there (the *first* live item): no way back to the next() call
+                        nxt = [c.bb for c in f.calls('Iterator>::next')]
+                        if not any(b in f.reachable(pos.bb) - {pos.bb} or (b == pos.bb) for b in nxt):
+                            guard_ok = True
     cx.check(ok_alts and idx_ok and guard_ok, 'front-cleanup-count', f, adv.loc(), 'advance(index of the first item with !is_erased, else usize::MAX)',
              fail_detail='the front cleanup does not advance by the index of the first live item: %s (guarded=%s)' % ([show(a)[:60] for a in alts], guard_ok))
     cx.check(adv.arg(0).kind == 'ref' and m.is_items(adv.arg(0).a), 'front-cleanup-target', f, adv.loc(), 'advances self.items')
